@@ -1736,3 +1736,32 @@ def unsigned_digit_arrays_rule(ctx, rid):
                        ok, '' if ok else 'a signed 8-bit array holds measured digits here; the sibling paths use np.uint8 (digits 128..255 of a qudit come back negative)', m.rel, k.value.lineno)
     if n == 0:
         raise AnalysisError(f'{rid}: no 8-bit digit array found in cirq.sim')
+
+
+def confusion_read_write_rule(ctx, rid):
+    """Both confusion routines apply the entries of a confusion map one after the other on the same digits."""
+    repo = ctx.repo
+    ctx.decided.append(f'{rid} in every routine that applies a confusion map, the digits an entry reads are the digits the entries write (entries act in sequence on one array)')
+    ctx.rule(rid, 'entries of a confusion map act in sequence: inside the loop over confusion_map.items() the container from which the row index is read (the argument of '
+             'big_endian_digits_to_int) is the container the new digits are stored into - one routine reading the original digits while its sibling reads the digits already '
+             'rewritten gives different records for a map whose keys share a position, depending on whether the measurement is terminal', floor=2, style='COH')
+    n = 0
+    for mod, ci, fn in repo.all_functions():
+        if not mod.rel.startswith('cirq-core/cirq/sim/') or mod.rel.endswith('_test.py'):
+            continue
+        for lp in [l for l in ast.walk(fn) if isinstance(l, ast.For) and isinstance(l.iter, ast.Call) and isinstance(l.iter.func, ast.Attribute) and l.iter.func.attr == 'items'
+                   and 'confusion_map' in ast.unparse(l.iter.func.value)]:
+            reads = set()
+            for c in ast.walk(lp):
+                if isinstance(c, ast.Call) and call_name(c).split('.')[-1] == 'big_endian_digits_to_int' and c.args:
+                    reads |= {s_.value.id for s_ in ast.walk(c.args[0]) if isinstance(s_, ast.Subscript) and isinstance(s_.value, ast.Name)}
+            writes = {t.value.id for s_ in ast.walk(lp) if isinstance(s_, ast.Assign) for t in s_.targets if isinstance(t, ast.Subscript) and isinstance(t.value, ast.Name)}
+            if not reads or not writes:
+                continue
+            n += 1
+            ok = reads <= writes
+            ctx.ob(rid, f'{mod.name}.{(ci.name + ".") if ci else ""}{fn.name}:reads-what-it-writes', ok, '' if ok else
+                   f'the row is read from {sorted(reads)} but the new digits go to {sorted(writes)}: a later entry does not see what an earlier entry wrote, unlike the sibling routine',
+                   mod.rel, lp.lineno)
+    if n == 0:
+        raise AnalysisError(f'{rid}: no confusion-map application loop found')
